@@ -10,6 +10,7 @@ import (
 	"fmt"
 	"math/big"
 	"runtime"
+	"strings"
 	"sync"
 	"sync/atomic"
 	"time"
@@ -752,7 +753,39 @@ func c17ECDSABurst(run *c17Run, seeds [][]byte, rep int) {
 		keys = append(keys, &ck{curve, key, px, py})
 	}
 	c.Eval(int64(len(keys) * perCurve * burst))
-	run.conc(len(keys)*perCurve, func(gi int) {
+	// next to them, callers that ask for key blinding on curves the package has no suite for (two differently named
+	// copies of the P-256 parameters): each gets an error of its own, naming nothing of the other call
+	unsupported := []*elliptic.CurveParams{}
+	for _, nm := range []string{"P-256-copy", "another-curve"} {
+		cp := *elliptic.P256().Params()
+		cp.Name = nm
+		unsupported = append(unsupported, &cp)
+	}
+	nU := 4
+	run.conc(len(keys)*perCurve+nU, func(gi int) {
+		if gi >= len(keys)*perCurve {
+			cv := unsupported[gi%2]
+			k256 := keys[1]
+			for i := 0; i < burst; i++ {
+				run.enter()
+				_, err := ecdsa.BlindPublicKeyWithContext(cv, &k256.key.PublicKey, k256.key, []byte("ctx"))
+				var msg string
+				if err != nil {
+					msg = err.Error()
+				}
+				run.leave()
+				if err == nil {
+					run.fail("BlindPublicKeyWithContext on a curve without a suite returned no error")
+					return
+				}
+				if other := unsupported[1-gi%2].Name; strings.Contains(msg, other) {
+					run.fail(fmt.Sprintf("the error returned for curve %q names the curve of another goroutine's call: %s", cv.Name, msg))
+					return
+				}
+			}
+			c.Class("unsupported_curve_errors_independent")
+			return
+		}
 		k := keys[gi%len(keys)]
 		r := core.NewRand(int64(gi), string(seeds[gi%len(seeds)]))
 		okAll := true
@@ -769,7 +802,7 @@ func c17ECDSABurst(run *c17Run, seeds [][]byte, rep int) {
 		}
 		if okAll {
 			c.Class("sign_results_ok")
-			c.Class("burst_signatures_ok")
+			c.Class("burst_signatures_ok", "unsupported_curve_errors_independent")
 		}
 	})
 }
